@@ -3,6 +3,8 @@ import XzVerif.Proofs.Chunk
 import XzVerif.Proofs.Writer2
 import XzVerif.Proofs.HashTable
 import XzVerif.Proofs.BinTree
+import XzVerif.Proofs.LazyDec2
+import XzVerif.Proofs.Fuel
 /-
   C08 — LZMA2 writer: lossless for any call history; Flush yields a decodable prefix.
 
@@ -209,5 +211,50 @@ theorem C08_writer_sequences_legal : ∀ s ∈ Proofs.Chunk.live, ∀ raw : Bool
     let c := if raw then Model.demote (Model.defaultChunkType s) else Model.defaultChunkType s
     ∃ s', Model.chunkNext s c = some s' ∧ s' ∈ Proofs.Chunk.live ∧ (Model.kindOfCtype c).isSome ∧ c ≠ Gen.lzma_cEOS :=
   Proofs.Chunk.writer_step
+
+/-! ### write → read with both sides at the level the code runs: the LZMA2 writer model and the LAZY LZMA2 reader model -/
+
+open LazyDec in
+/-- when the batch LZMA2 reader decodes `inp` cleanly to `content`, the lazy ring-level reader of the same capacity
+    delivers exactly `content` followed by `io.EOF`, under every schedule asking for more than `content` -/
+theorem lazy2_of_batch (cfgCap : Nat) (hcap : 4096 ≤ effCap cfgCap) (inp content : ByteArray) (r : Lzma2.RState)
+    (hdec : decode false (effCap cfgCap) inp 0 ByteArray.empty = (r, .eof)) (hout : r.h.out = content)
+    (lens : List Nat) (hsum : content.size < lens.sum) :
+    LazyDec.lastStat (LazyDec2.readSeq (LazyDec2.newReader2 cfgCap inp) lens) = .eof ∧
+    delivered (LazyDec2.readSeq (LazyDec2.newReader2 cfgCap inp) lens) = content := by
+  have hb : LazyDec2.batch cfgCap inp = (r, .eof) := hdec
+  have hclean : (LazyDec2.batch cfgCap inp).2 = .eof := by rw [hb]
+  have hbo : (LazyDec2.batch cfgCap inp).1.h.out = content := by rw [hb]; exact hout
+  have heof := LazyDec2.reaches_eof cfgCap hcap inp lens hclean (by rw [hbo]; exact hsum)
+  have hf : (LazyDec2.batch cfgCap inp).2 ≠ .err "fuel exhausted" := by rw [hclean]; intro h; cases h
+  exact ⟨heof, by rw [(LazyDec2.eof_complete cfgCap hcap inp lens hf heof).2, hbo]⟩
+
+open W2 LazyDec in
+/-- **Close, both sides as the code runs** (HashTable4 model): every valid configuration with a dictionary of at least
+    4096 bytes (what `Reader2Config` accepts), every history of Write and Flush calls followed by Close: the lazy LZMA2
+    reader configured with the writer's dictionary capacity delivers, under EVERY schedule of buffer lengths asking for
+    more than the data, exactly all data written, followed by `io.EOF`. -/
+theorem C08_hashtable4_close_then_lazy_reader (c : Cfg) (hc : CfgOk c) (hd : 4096 ≤ c.dictCap) (calls : List Call)
+    (hnc : ∀ call ∈ calls, ¬ (call matches .close)) (lens : List Nat) (hsum : (payload calls).size < lens.sum) :
+    let out := (run c HT.HT4 (init c (HT.St.new c.dictCap c.bufSize)) (calls ++ [.close])).1.out
+    LazyDec.lastStat (LazyDec2.readSeq (LazyDec2.newReader2 c.dictCap out) lens) = .eof ∧
+    delivered (LazyDec2.readSeq (LazyDec2.newReader2 c.dictCap out) lens) = payload calls := by
+  intro out
+  obtain ⟨r, h1, h2, _, _⟩ := C08_hashtable4_close_decodes false c hc calls hnc
+  have he : effCap c.dictCap = c.dictCap := by unfold effCap; split <;> omega
+  exact lazy2_of_batch c.dictCap (by rw [he]; exact hd) out (payload calls) r (by rw [he]; exact h1) h2 lens hsum
+
+open W2 LazyDec in
+/-- **Flush, both sides as the code runs** (HashTable4 model): what the sink holds when a Flush returns, followed by an
+    end marker, is read by the lazy LZMA2 reader to exactly the data written so far -/
+theorem C08_hashtable4_flush_then_lazy_reader (c : Cfg) (hc : CfgOk c) (hd : 4096 ≤ c.dictCap) (calls : List Call)
+    (hnc : ∀ call ∈ calls, ¬ (call matches .close)) (lens : List Nat) (hsum : (payload calls).size < lens.sum) :
+    let out := ((run c HT.HT4 (init c (HT.St.new c.dictCap c.bufSize)) (calls ++ [.flush])).1.out).push 0
+    LazyDec.lastStat (LazyDec2.readSeq (LazyDec2.newReader2 c.dictCap out) lens) = .eof ∧
+    delivered (LazyDec2.readSeq (LazyDec2.newReader2 c.dictCap out) lens) = payload calls := by
+  intro out
+  obtain ⟨r, h1, h2, _⟩ := C08_hashtable4_flush_prefix_decodes false c hc calls hnc
+  have he : effCap c.dictCap = c.dictCap := by unfold effCap; split <;> omega
+  exact lazy2_of_batch c.dictCap (by rw [he]; exact hd) out (payload calls) r (by rw [he]; exact h1) h2 lens hsum
 
 end Props.C08
